@@ -106,8 +106,9 @@ fn judge(p: &str, renamed: &str, hygienic: Option<&str>, n: u64, sig_differs: &s
         }
         (Got::Rejected(d), Got::Ran(_)) => fail!(sig_accept, "the original is rejected ({d}), the renamed program compiles and runs"),
         (Got::Ran(_), Got::Rejected(d)) => fail!(sig_accept, "the original compiles and runs, the renamed program is rejected ({d})"),
-        (Got::Panic(s, d), Got::Ran(_)) => fail!(format!("c10:panic:{s}"), "the original panics at {d}; the renamed program compiles and runs"),
-        (Got::Ran(_), Got::Panic(s, d)) => fail!(format!("c10:panic:{s}"), "the renamed program panics at {d}; the original compiles and runs"),
+        // (in the probes of compiler-synthesised names a crash caused by the collision keeps the probe's signature)
+        (Got::Panic(s, d), Got::Ran(_)) => fail!(if sig_accept.starts_with("c10:compiler-temp-capture") { sig_accept.to_string() } else { format!("c10:panic:{s}") }, "the original panics at {d}; the renamed program compiles and runs"),
+        (Got::Ran(_), Got::Panic(s, d)) => fail!(if sig_accept.starts_with("c10:compiler-temp-capture") { sig_accept.to_string() } else { format!("c10:panic:{s}") }, "the renamed program panics at {d}; the original compiles and runs"),
         (x, y) => fail!(sig_accept, "original: {}; renamed: {}", kind(x), kind(y)),
     };
     if let Some(h) = hygienic {
@@ -132,8 +133,6 @@ fn kind(g: &Got) -> String {
 
 struct G10 {
     case: Case,
-    /// expansion by plain substitution (what a name-based expander produces)
-    naive: (Option<X>, X),
     hyg: (Option<X>, X),
     /// capture predicted by name-based substitution with proper block scoping
     cap_splice: Option<&'static str>,
@@ -207,7 +206,7 @@ fn gen10(g: &mut Gen, avoid_splice: bool) -> Option<G10> {
         forms_m(&f.body, &mut forms);
     }
     let dt_sensitive = forms.contains("q:let-nested-tuple") && render_staged(&case, false).contains("__dt0");
-    Some(G10 { case, naive, hyg, cap_splice, cap_leak, cap_feed, dt_sensitive, n, in_fn, avoided })
+    Some(G10 { case, hyg, cap_splice, cap_leak, cap_feed, dt_sensitive, n, in_fn, avoided })
 }
 
 fn finish(p: &str, renamed: &str, hygienic: Option<&str>, n: u64, sig_differs: &str, sig_accept: &str, classes: Vec<String>, nontrivial: bool, cx: &Cx) -> CaseResult {
@@ -291,7 +290,7 @@ impl Prop for C10 {
         let b = "the same generator restricted (by re-drawing) to programs for which name-based substitution with the repository's known scoping agrees with capture-avoiding expansion: collisions that must be harmless";
         let c = "hand-written probes of compiler-synthesised names (__dt0, feed_id0, __lambda_arg_0, record_update_temp), one fresh process per case; the user's variable is renamed";
         let (na, nb) = match tier {
-            Tier::Quick => (1200, 1100),
+            Tier::Quick => (1500, 1400),
             Tier::Thorough => (30_000, 70_000),
         };
         vec![
@@ -307,9 +306,9 @@ impl Prop for C10 {
             let renamed = pr.tpl.replace("@N@", "w9");
             let sig = format!("c10:compiler-temp-capture:{}", pr.name);
             let mut r = finish(&p, &renamed, None, 3, &sig, &sig, vec![format!("probe:{}", pr.label), format!("name:{}", pr.name)], true, cx);
+            // a crash or rejection of the original caused by the collision is the same root cause
             if let Status::Fail { sig: s, .. } = &r.status {
-                // a crash of the original caused by the collision is the same root cause
-                let same_root = *s == sig || s.starts_with("c10:panic:");
+                let same_root = *s == sig;
                 if !cx.strict && !pr.kf.is_empty() && cx.excluded(pr.kf) && same_root {
                     let mut h = CaseResult::held(r.hash);
                     h.classes = std::mem::take(&mut r.classes);
